@@ -33,6 +33,7 @@ struct Seen {
 }
 
 fn one(rep: &mut Reporter, seed: u64, thorough: bool) {
+    rep.case(seed);
     let mut rng = Rng::new(seed);
     let nrem = 2 + rng.usize(3);
     let remotes: Vec<Remote> = (0..nrem as u8).map(Remote::new).collect();
